@@ -79,6 +79,10 @@ _MIASM_EXPORT unsigned int cnttrailzeros(uint64_t size, uint64_t src);
 			fprintf(stderr, "Should not happen\n");		\
 			exit(EXIT_FAILURE);				\
 		}							\
+		if (b == -1) {						\
+			/* INT_MIN / -1 traps (#DE) on the host: wrap */	\
+			return (int ## sizeA ## _t)(0 - (uint ## sizeA ## _t)a); \
+		}							\
 		r = a/b;						\
 		return r;						\
 	}
@@ -91,6 +95,10 @@ _MIASM_EXPORT unsigned int cnttrailzeros(uint64_t size, uint64_t src);
 		if (b == 0) {						\
 			fprintf(stderr, "Should not happen\n");		\
 			exit(EXIT_FAILURE);				\
+		}							\
+		if (b == -1) {						\
+			/* INT_MIN % -1 traps (#DE) on the host */	\
+			return 0;					\
 		}							\
 		r = a%b;						\
 		return r;						\
